@@ -29,7 +29,7 @@ fn id_of_debug(s: &str) -> u64 {
     let p = s.find("TimerId(").expect("no TimerId in Debug output") + 8;
     s[p..].chars().take_while(|c| c.is_ascii_digit()).collect::<String>().parse().unwrap()
 }
-fn when() -> SystemTime { SystemTime::UNIX_EPOCH + Duration::from_secs(1_700_000_000) }
+fn when(i: usize) -> SystemTime { vh::when::at(i) }
 
 impl App for MApp {
     type Event = Ev;
@@ -42,8 +42,8 @@ impl App for MApp {
         match event {
             Ev::StartCmd(k) => {
                 let (cmd, handle) = match k {
-                    Kind::After => { let (b, h) = CmdTime::notify_after(Duration::from_secs(2)); (b.then_send(move |o| Ev::OutCmd(i, o)), h) }
-                    Kind::At => { let (b, h) = CmdTime::notify_at(when()); (b.then_send(move |o| Ev::OutCmd(i, o)), h) }
+                    Kind::After => { let (b, h) = CmdTime::notify_after(vh::when::dur(i)); (b.then_send(move |o| Ev::OutCmd(i, o)), h) }
+                    Kind::At => { let (b, h) = CmdTime::notify_at(when(i)); (b.then_send(move |o| Ev::OutCmd(i, o)), h) }
                 };
                 model.ids.push(id_of_debug(&format!("{:?}", handle)));
                 model.handles.push(handle);
@@ -51,8 +51,8 @@ impl App for MApp {
             }
             Ev::StartLegacy(k) => {
                 let id = match k {
-                    Kind::After => caps.time.notify_after(Duration::from_secs(2), move |r| Ev::OutLegacy(i, r)),
-                    Kind::At => caps.time.notify_at(when(), move |r| Ev::OutLegacy(i, r)),
+                    Kind::After => caps.time.notify_after(vh::when::dur(i), move |r| Ev::OutLegacy(i, r)),
+                    Kind::At => caps.time.notify_at(when(i), move |r| Ev::OutLegacy(i, r)),
                 };
                 model.ids.push(id.0 as u64);
                 Command::done()
@@ -85,8 +85,8 @@ fn run_case(apis: &[Api], kinds: &[Kind], class: &str) {
         match a {
             Api::Direct => {
                 let (cmd, h) = match k {
-                    Kind::After => { let (b, h) = CmdTime::<DEff, DEv>::notify_after(Duration::from_secs(2)); (b.then_send(DEv::Out), h) }
-                    Kind::At => { let (b, h) = CmdTime::<DEff, DEv>::notify_at(when()); (b.then_send(DEv::Out), h) }
+                    Kind::After => { let (b, h) = CmdTime::<DEff, DEv>::notify_after(vh::when::dur(ids.len())); (b.then_send(DEv::Out), h) }
+                    Kind::At => { let (b, h) = CmdTime::<DEff, DEv>::notify_at(when(ids.len())); (b.then_send(DEv::Out), h) }
                 };
                 ids.push(id_of_debug(&format!("{:?}", h)));
                 directs.push((cmd, h));
